@@ -35,6 +35,7 @@ REPAIR_SPECS = {
 SPEC = os.environ.get("H_SPEC", "rep2")
 NCH = int(os.environ.get("H_CHOICES", "8"))
 MODE = os.environ.get("H_MODE", "repair")
+C0 = int(os.environ.get("H_C0", "-1"))  # >= 0: the first random draw is fixed per condition (conditions run in parallel)
 G, CS = load_with_constraints(REPAIR_SPECS[SPEC])
 nodes_mod.MAX_REPETITIONS = 3
 from fandango.constraints.repetition_bounds import RepetitionBoundsConstraint
@@ -114,7 +115,7 @@ def pipeline(choices):
 
 def stays_in_grammar(choices: List[int]) -> bool:
     """
-    pre: len(choices) <= NCH and all(0 <= c <= 3 for c in choices)
+    pre: len(choices) <= NCH and all(0 <= c <= 3 for c in choices) and (C0 < 0 or (len(choices) > 0 and choices[0] == C0))
     post: _
     """
     exclude_known("stays_in_grammar", choices=choices, SPEC=SPEC, MODE=MODE)
@@ -130,7 +131,7 @@ def stays_in_grammar(choices: List[int]) -> bool:
 
 def reach(choices: List[int]) -> bool:
     """
-    pre: len(choices) <= NCH and all(0 <= c <= 3 for c in choices)
+    pre: len(choices) <= NCH and all(0 <= c <= 3 for c in choices) and (C0 < 0 or (len(choices) > 0 and choices[0] == C0))
     post: _
     """
     # twin: a repair actually changed the tree
